@@ -5,8 +5,8 @@ cd "$(dirname "$0")/.."
 export CARGO_NET_OFFLINE=true
 for prof in dev relsize; do
   if [ "$prof" = dev ]; then flag=""; else flag="--profile relsize"; fi
-  if ! cargo build $flag -p vc_math > /verif/target/build-vc_math-$prof.log 2>&1; then
-    echo "inconclusive: vc_math ($prof) build failed" >&2; tail -n 20 /verif/target/build-vc_math-$prof.log >&2; exit 2
+  if ! cargo build $flag -p vc_math > ${VERIF_TARGET:-/verif/target}/build-vc_math-$prof.log 2>&1; then
+    echo "inconclusive: vc_math ($prof) build failed" >&2; tail -n 20 ${VERIF_TARGET:-/verif/target}/build-vc_math-$prof.log >&2; exit 2
   fi
 done
 exit 0
